@@ -527,6 +527,74 @@ def gen_C16(seed, tier):
     return finish(g, out, samples, cnt)
 
 
+
+# ------------------------------------------------------------------------------------------------
+# constraint sets (C08 - C11)
+CS_CLASSES = [  # (tag, loop classes, number of contact points)
+    ("contact", [], 1), ("contact", [], 2), ("loopbase", ["base"], 0), ("loopball", ["ball"], 0),
+    ("mixbase", ["base"], 1), ("loopd5a", ["d5a"], 0), ("loopd5b", ["d5b"], 0), ("mixball", ["ball"], 1),
+]
+CS_CLEAN = [c for c in CS_CLASSES if "d5" not in c[0]]
+
+
+def gen_cs(prefix, seed, tier, nq, nt, calls_fn, classes, fext_prob=0.0, baumgarte_prob=0.0, need_free=1):
+    g = G.Gen(seed)
+    out, samples, sigs = [], [], set()
+    n = nmodels(tier, nq, nt)
+    made = 0
+    i = 0
+    while made < n and i < 6 * n:
+        tag, klasses, ncont = classes[i % len(classes)]
+        i += 1
+        bg = bool(klasses) and g.r.random() < baumgarte_prob
+        r = G.constrained_case(g, klasses, ncont, baumgarte=bg, need_free=need_free)
+        if r is None:
+            g.stats["rejected:" + tag] += 1
+            continue
+        mb, grav, st, cb = r
+        body = list(cb.lines) + ["cs_bind"] + st
+        if g.r.random() < fext_prob:
+            body.append(mb.fext_line(0.4))
+        body += calls_fn(g, mb, cb)
+        cid = "%s%s_%d" % (prefix, tag, made)
+        out.append("case " + cid); out.append(grav); out += mb.lines; out += body
+        made += 1
+        for k in cb.kinds:
+            g.stats["constraint:" + k] += 1
+        for k in mb.kinds:
+            g.stats["joint:%s@%s" % k] += 1
+        sigs.add((tuple(mb.kinds), tuple(cb.kinds)))
+        if len(samples) < 3:
+            samples.append({"case": cid, "constraints": cb.kinds, "joints": [list(k) for k in mb.kinds],
+                            "rows": cb.nc, "dof": mb.nv})
+    return finish(g, out, samples, len(sigs))
+
+
+def calls_C09(g, mb, cb):
+    return ["call CJ 1 1", "call CPE 1 1", "call CVE 1 1", "call CSV 1 1",
+            "poison %d" % g.r.randint(1, 10 ** 6), "call UKC 1", "call CJ 0 0", "call CPE 0 0"]
+
+
+def gen_C09(seed, tier):
+    return gen_cs("c09", seed, tier, 40, 240, calls_C09, CS_CLASSES, baumgarte_prob=0.3)
+
+
+def calls_C08(g, mb, cb):
+    c = ["call CSV 1 0"]
+    for method in (0, 1, 2):
+        c.append("cs_solver %d" % g.r.randint(0, 2))
+        c.append("call FDC %d 1 1" % method)
+    if not cb.has_loop:
+        c.append("fext none")               # the Kokkevis routine takes no external forces
+        c.append("call FDC 0 1 1")
+        c.append("call FDC 3 0 1")          # Kokkevis: contact-only sets
+    return c
+
+
+def gen_C08(seed, tier):
+    return gen_cs("c08", seed, tier, 32, 200, calls_C08, CS_CLASSES, fext_prob=0.4, baumgarte_prob=0.3)
+
+
 NOT_YET = {}
 
 COMMON_ASSUMPTIONS = ["double evaluation is compared with exact rational evaluation up to 1e-8*scale",
@@ -563,6 +631,14 @@ PROPS = {
     "C16": {"gen": gen_C16,
             "rule": "every compact operator of SpatialAlgebraOperators.h / Quaternion.h / rbdl_mathutils on random rational arguments (rational rotations, translations, inertias, unit quaternions incl. rotations by half a turn with trace -1, diagonally dominant shuffled systems for the Gauss solver); distinct = number of (operator, argument) pairs",
             "explanation": "46 theorems: each compact operator equals its 6x6 matrix definition, composition laws, power invariance, quaternion laws; correspondence: the C++ operator vs the Lean definition on explicit arguments",
+            "assumptions": COMMON_ASSUMPTIONS},
+    "C08": {"gen": gen_C08,
+            "rule": "random models with contact sets (1-3 orthonormal normals per point, 1-2 points, movable / fixed bodies) and loop constraints placed on the manifold with exact kinematics (classes: predecessor = base; ball (3 translations); rotational axes with the predecessor frame away from the base origin; partial translations / frames separated along free axes), velocities projected exactly on G qdot = 0, Baumgarte on / off, external forces; methods direct / range-space / null-space x 3 solvers, Kokkevis for contact-only sets",
+            "explanation": "certificates evaluated with the specification: H q'' + N = tau + G^T lambda, G q'' = gamma (second jet of phi incl. the Baumgarte term), agreement of the methods",
+            "assumptions": COMMON_ASSUMPTIONS + ["constraint Jacobian smallest singular value >= 0.05 (checked exactly before a case is emitted)"]},
+    "C09": {"gen": gen_C09,
+            "rule": "same constraint-set grammar as C08; CalcConstraintsJacobian / PositionError / VelocityError, gamma from CalcConstrainedSystemVariables (flag set and cleared)",
+            "explanation": "monitor: G = d(phi')/d(qdot), velocity error = phi', gamma = -phi''(qddot = 0) - Baumgarte, from second-order jets of the constraint functions phi on the pose specification",
             "assumptions": COMMON_ASSUMPTIONS},
     "C12": {"gen": gen_C12, "rule": RULE_MODELS + "; random contact plane (unit normal, point off the origin)", "explanation": "monitor: definitions of mass, CoM, momentum, energies, ZMP on jets of the pose specification",
             "assumptions": COMMON_ASSUMPTIONS},
